@@ -3,7 +3,7 @@
    specs and every name type with a decidable equality: the index invariant
    below is established by [new] and preserved by add_node / add_edge. *)
 From Coq Require Import String List Bool ZArith NArith Arith Lia.
-From GV Require Import Base.Outcome Base.AMap Model.GState Model.Creation.
+From GV Require Import Base.Outcome Base.AMap Model.GState Model.Creation Proofs.CreationMono.
 Import ListNotations.
 
 (* ---- association lists ---------------------------------------------------- *)
@@ -278,7 +278,7 @@ Section NoPanic.
 
   Lemma add_edge_np : forall g e, NP g -> good (add_edge teqb tltb g e) (sp g).
   Proof.
-    intros g e Hg. unfold add_edge.
+    intros g e Hg. rewrite <- (add_edge_mono_eq teqb tltb g e). unfold add_edge_mono.
     destruct (negb (selfloops (sp g)) && teqb (eu e) (ev e)).
     { destruct (slf (sp g)); apply good_ret; cbn; auto. }
     destruct ((match ms (sp g) with MErr => true | MCreate => false end)
